@@ -27,7 +27,7 @@ func (o *OracleC01) check(n *Node, idx uint32, h Hash, how string) {
 			// finding D1 (early commits are never re-validated).
 			class := "fork"
 			for _, a := range o.s.accepts[idx] {
-				if a.cert.onlyEarlyInvalid() {
+				if a.cert.knownD1() {
 					class = "fork_via_unverified_early_commit"
 				}
 			}
